@@ -2,7 +2,7 @@
 """copies a confirmed seeded change into /verif/seeded/<id>/ (patch.diff, demo, notes, meta.json)"""
 import json, os, shutil, sys
 pid, k, detected_by, what_ran = sys.argv[1], sys.argv[2], sys.argv[3], sys.argv[4]
-src = f"/tmp/wt/{pid}/_mutants/{k}"
+src = f"{os.environ.get('SEED_WT', '/tmp/wt')}/{pid}/_mutants/{k}"
 dst = f"/verif/seeded/{pid}-{k}"
 os.makedirs(dst, exist_ok=True)
 for f in os.listdir(src):
